@@ -166,16 +166,16 @@ func reachU(start ipos, stop func(ssa.Instruction) bool) map[ssa.Instruction]boo
 				if val, ok := known.decide(iff.Cond); ok {
 					// the helper that produced the tested value returned a constant on this path
 					if val {
-						walk(ipos{p.b.Succs[0], 0}, stack, known)
+						walk(ipos{p.b.Succs[0], 0}, stack, known.enter(p.b, p.b.Succs[0]))
 					} else {
-						walk(ipos{p.b.Succs[1], 0}, stack, known)
+						walk(ipos{p.b.Succs[1], 0}, stack, known.enter(p.b, p.b.Succs[1]))
 					}
 					return
 				}
 			}
 		}
 		for _, s := range p.b.Succs {
-			walk(ipos{s, 0}, stack, known)
+			walk(ipos{s, 0}, stack, known.enter(p.b, s))
 		}
 	}
 	walk(start, nil, knownResults{})
@@ -281,6 +281,50 @@ func (k knownResults) withReturn(call ssa.Instruction, ret *ssa.Return) knownRes
 		}
 	}
 	return n
+}
+
+// enter: the phis of block to, entered from block from, take what is known about the value on that edge
+// (dst, err = helperA(x) in one branch, = helperB(x) in the other, tested after the join).
+func (k knownResults) enter(from, to *ssa.BasicBlock) knownResults {
+	idx := -1
+	for i, p := range to.Preds {
+		if p == from {
+			idx = i
+		}
+	}
+	if idx < 0 {
+		return k
+	}
+	var n *knownResults
+	for _, in := range to.Instrs {
+		ph, ok := in.(*ssa.Phi)
+		if !ok {
+			break
+		}
+		c, had := k.m[ph.Edges[idx]]
+		if !had {
+			c = classifyResult(ph.Edges[idx])
+		}
+		old, hadOld := k.m[ph]
+		if c == old && (c != 0) == hadOld {
+			continue
+		}
+		if n == nil {
+			n = &knownResults{m: map[ssa.Value]int8{}}
+			for v, cc := range k.m {
+				n.m[v] = cc
+			}
+		}
+		if c == 0 {
+			delete(n.m, ph)
+		} else {
+			n.m[ph] = c
+		}
+	}
+	if n == nil {
+		return k
+	}
+	return *n
 }
 
 // decide evaluates a branch condition that tests a known helper result.
@@ -1231,7 +1275,58 @@ func sameOrigin(a, b ssa.Value) bool {
 	if oa == ob || sameVal(a, b) {
 		return true
 	}
-	return paramIs(oa, ob) || paramIs(ob, oa)
+	if paramIs(oa, ob) || paramIs(ob, oa) {
+		return true
+	}
+	// "the value, or nil": a helper that hands back one value on its successful returns and the constant nil
+	// on the others (chunk, wait, ok := r.popDue(...))
+	na, nb := originOrNil(oa), originOrNil(ob)
+	return (na != oa || nb != ob) && (na == nb || origin(na) == origin(nb))
+}
+
+// originOrNil: v is the result of a private helper all of whose returns yield either the constant nil or one and
+// the same value (after origin): that value. Only for identity comparisons - the result may be nil where the
+// value is not.
+func originOrNil(v ssa.Value) ssa.Value {
+	var call *ssa.Call
+	idx := 0
+	switch x := v.(type) {
+	case *ssa.Call:
+		call = x
+	case *ssa.Extract:
+		call, _ = x.Tuple.(*ssa.Call)
+		idx = x.Index
+	}
+	if call == nil {
+		return v
+	}
+	h := helperCallee(call)
+	if h == nil || idx >= h.Signature.Results().Len() {
+		return v
+	}
+	switch h.Signature.Results().At(idx).Type().Underlying().(type) {
+	case *types.Pointer, *types.Interface, *types.Slice, *types.Map, *types.Chan:
+	default:
+		return v
+	}
+	var one ssa.Value
+	for _, rv := range returnedValues(h, idx) {
+		if isNilConst(rv) {
+			continue
+		}
+		o := origin(rv)
+		if one != nil && o != one {
+			return v
+		}
+		one = o
+	}
+	if one == nil {
+		return v
+	}
+	if _, isPrm := one.(*ssa.Parameter); isPrm {
+		return v // would need the binding of this call
+	}
+	return one
 }
 
 // paramIs: p is a parameter of a private helper and every call site of that helper within the
@@ -1489,4 +1584,21 @@ func constLoopHeader(cur *upath, b *ssa.BasicBlock) bool {
 	_, ok2 := cur.evalInt(bo.Y, len(cur.Instrs)-1, 0)
 	cur.Instrs = cur.Instrs[:n]
 	return ok1 && ok2
+}
+
+// siteAt: the call of the innermost inlined helper whose body contains index idx of the path (nil: the root).
+func (p *upath) siteAt(idx int) ssa.Instruction {
+	var best *uframe
+	for k := range p.Frames {
+		fr := &p.Frames[k]
+		if fr.Start <= idx && (fr.End < 0 || idx <= fr.End) {
+			if best == nil || fr.Start >= best.Start {
+				best = fr
+			}
+		}
+	}
+	if best == nil {
+		return nil
+	}
+	return best.Call
 }
